@@ -131,6 +131,20 @@ E13_TEXT = {
     "C11": " Extension.bake merges are interpreted on abstract extensions: every member list of the extended type is what it was followed by the extension's members.",
     "C14": " The single-root traversal is interpreted over every selection-set shape up to three fragments deep; the source's operands are resolved on paths back to the producers' results.",
 }
+R4_TEXT = {
+    "C01": " The variable map the argument tables read has no entry for an omitted variable without default (C04.R2).",
+    "C03": " Enum and possible-type lookups are decided on paths for the key exactly as given; outside its catch-all Engine.execute / subscribe evaluate only the cached parse of the query as received.",
+    "C04": " Every item of a list variable goes through the inner coercer (no item is answered from another item's result).",
+    "C05": " SDL string tokens: ordinary strings decoded, block strings literal (defaults written in the SDL are literals too).",
+    "C10": " A variable is let into a position only when its declared type is the position's type up to nullability (the variable-usage compatibility tables): nothing converts a value afterwards.",
+    "C11": " The schema-level @nonIntrospectable hook turns the flag off before the request proceeds and nothing ever turns it back on; SDL string tokens (block strings literal); no memoised function in the SDL pipeline.",
+    "C12": " Nullary validators walk complete registries only (not indexes derived at registration time); is_possible_type judges the type as given.",
+    "C14": " The source is started with spec-coerced variables (the CoerceVariableValues table, C04.R1).",
+    "C17": " No memoised function anywhere in the package (a functools cache is process-wide state).",
+    "C18": " Outside its catch-all the entry points evaluate only the cached parse of the query as received.",
+}
+for _k, _v in TABLE.items():
+    _v["text"] = _v["text"] + R4_TEXT.get(_k, "")
 for _k, _v in TABLE.items():
     _v["text"] = _v["text"] + E13_TEXT.get(_k, "")
 for _k, _v in TABLE.items():
